@@ -202,7 +202,13 @@ def _run(ix, R):
         b = {'Ti': code(fl, 'self.T_int'), 'Tr': code(fl, 'self.T_irr'), 'al': code(fl, 'self.alpha'),
              'g1': spec(fl, 'self.kappa_v1/self.kappa_ir'), 'g2': spec(fl, 'self.kappa_v2/self.kappa_ir'),
              'tau': spec(fl, 'self.kappa_ir*self.pressure_profile/self.planet.gravity')}
-        eta = '(2/3 + 2/(3*G)*(1 + (G*tau/2 - 1)*exp(-G*tau)) + 2*G/3*(1 - tau**2/2)*spe.expn(2, G*tau))'
+        # the exponential integral, under whatever name this module imports it
+        en = 'spe.expn'
+        for a_ in sorted(v.all_atoms()):
+            at_ = fl.tab.atoms[a_]
+            if at_.head == 'call' and at_.extra and at_.extra[0][3:].split('.')[-1] == 'expn':
+                en = at_.extra[0][3:]
+        eta = '(2/3 + 2/(3*G)*(1 + (G*tau/2 - 1)*exp(-G*tau)) + 2*G/3*(1 - tau**2/2)*%s(2, G*tau))' % en
         T4 = ('3*Ti**4/4*(2/3 + tau) + 3*Tr**4/4*(1-al)*%s + 3*Tr**4/4*al*%s' % (
             eta.replace('G', 'g1'), eta.replace('G', 'g2')))
         want = spec(fl, '(%s)**0.25' % T4, b)
@@ -212,9 +218,14 @@ def _run(ix, R):
                 'tau = kappa_ir P / g',
                 fl.tab.equal(v, want), key=fmt(fl, v)[:240], detail='differs: %s' % fl.tab.diff(v, want),
                 loc=f.loc(r.node))
-        imp = f.module.imports.get('spe')
-        R.check('2.guillot.expn', 'TAB', site, 'spe is scipy.special', imp == ('scipy.special', None),
-                key='spe -> %s' % (imp,), detail='spe -> %s' % (imp,))
+        if '.' in en:
+            imp = f.module.imports.get(en.split('.')[0])
+            okimp = imp == ('scipy.special', None) or (imp == ('scipy', None) and en == 'scipy.special.expn')
+        else:
+            imp = f.module.imports.get(en)
+            okimp = imp == ('scipy.special', 'expn')
+        R.check('2.guillot.expn', 'TAB', site, 'E_2 is scipy.special.expn', okimp,
+                key='%s -> %s' % (en, imp), detail='%s -> %s' % (en, imp))
     site = GU + '::Guillot2010.__init__'
     with R.guard('2.guillot.init', 'ARG', site, 'constructor'):
         f = ix.func(site)
@@ -248,7 +259,8 @@ def _run(ix, R):
     with R.guard('3.array', 'ALG', site, 'array'):
         f = ix.func(site)
         fl = mkflow(ix, site)
-        rets = fl.of('return')
+        from sa.helpers import split_exits
+        rets = split_exits(fl, fl.of('return'))
         why = []
         want = spec(fl, 'interp(linspace(1.0, 0.0, self.nlayers)[::-1], linspace(1.0, 0.0, self._tp_profile.shape[0])[::-1], self._tp_profile[::-1])')
         kinds = []
@@ -257,7 +269,7 @@ def _run(ix, R):
                 kinds.append('interp')
             elif fl.tab.equal(r.value, code(fl, 'self._tp_profile')):
                 kinds.append('same')
-                if not any(fl.tab.equal(g.rf, spec(fl, 'self._tp_profile.shape[0] == self.nlayers')) and g.positive
+                if not any(g.rf is not None and guard_is(fl, g, spec(fl, 'self._tp_profile.shape[0] == self.nlayers'), True)
                            for g in r.guards):
                     why.append('raw array returned without the length test')
             elif fl.tab.equal(r.value, spec(fl, 'self._func(log10(self.pressure_profile))')):
